@@ -67,7 +67,9 @@ type verifC13Exec struct {
 	lwfUsed        bool
 	lost           bool // the holder has logged that its stale lock could not be refreshed
 	uploads        int
-	lateUploads    []string
+	lostArrivalMin int       // oldest lock age (minutes) at which an upload reached the storage after the holder found its lock lost
+	newestLock     time.Time // creation time of the newest lock file in the store (kept by the monitor)
+	staleUploads   []string  // uploads the holder issued to the storage while its newest lock file was older than the staleness limit
 }
 
 const (
@@ -96,8 +98,8 @@ func TestVerif_C13(t *testing.T) {
 		quantum, traffic := v.quantum, v.traffic
 		name := fmt.Sprintf("holder/stall=%v", quantum)
 		if traffic {
-			// the holder also uploads data through the connection-limiting (freezable) backend layer; once it
-			// has found its lock lost, no upload may take effect any more
+			// the holder also uploads data through the connection-limiting (freezable) backend layer: no upload
+			// may be issued to the storage once the holder's newest lock file can be judged stale
 			name = "holder+uploads"
 		}
 		sc := xplore.Scenario{
@@ -113,6 +115,18 @@ func TestVerif_C13(t *testing.T) {
 						return nil
 					},
 					Filter: func(op *gatebe.Op) bool {
+						if traffic && op.Key.Type == backend.PackFile && op.Kind == "Save" && !st.newestLock.IsZero() && st.foreign == 0 && st.holding && st.lockCtx != nil && st.lockCtx.Err() == nil {
+							// (after a foreign removal the newest file may be an orphan of an earlier failed Remove; that case is judged by the gap rule of the monitor)
+							// the request has passed the connection limiter and reaches the storage now
+							if st.lost {
+								if m := int(time.Since(st.newestLock) / time.Minute); m > st.lostArrivalMin {
+									st.lostArrivalMin = m
+								}
+							}
+							if age := time.Since(st.newestLock); age >= verifC13Stale {
+								st.staleUploads = append(st.staleUploads, fmt.Sprintf("%s at %s (newest lock file %v old)", op.Key.String(), time.Now().Format("15:04:05"), age.Round(time.Second)))
+							}
+						}
 						return op.Key.Type == backend.LockFile || (traffic && op.Key.Type == backend.PackFile && st.lwfUsed)
 					},
 					Alts: func(op *gatebe.Op) []string {
@@ -129,9 +143,6 @@ func TestVerif_C13(t *testing.T) {
 					if op.Key.Type == backend.PackFile && op.Kind == "Save" {
 						if ans == "ok" && err == nil {
 							st.uploads++
-							if st.lost {
-								st.lateUploads = append(st.lateUploads, op.Key.String())
-							}
 						}
 						return
 					}
@@ -182,7 +193,7 @@ func TestVerif_C13(t *testing.T) {
 								select {
 								case <-lctx.Done():
 									return
-								case <-time.After(2 * time.Minute):
+								case <-time.After(113 * time.Second): // never coincides with a refresh tick, the expiry monitor or the horizon
 								}
 								data := oracle.LCG(uint64(7000+i), 200)
 								name := restic.Hash(data).String()
@@ -240,13 +251,10 @@ func TestVerif_C13(t *testing.T) {
 			key := strings.Join(x.Trace, ">")
 			r.State(key)
 			refreshed := 0
-			stalls := 0
+			stalls := x.Stalls // "time passes" steps taken while backend operations were pending
 			for _, k := range x.Trace {
 				if strings.HasPrefix(k, "H:Save:lock") && strings.HasSuffix(k, "=ok") {
 					refreshed++
-				}
-				if k == "@time" {
-					stalls++
 				}
 			}
 			if (st.faults > 0 || stalls > 0 || st.foreign > 0) && refreshed > 0 {
@@ -271,13 +279,16 @@ func TestVerif_C13(t *testing.T) {
 					st.bad = append(st.bad, fmt.Sprintf("leftover: %d lock file(s) of the holder remain after Unlock although no removal was made to fail: %v (deadlock=%v horizon=%v idlewaits=%d steps=%d)", n, names, x.Deadlock, x.Horizon, x.IdleWaits, x.StepNo))
 				}
 			}
-			if len(st.lateUploads) > 0 {
-				st.bad = append([]string{fmt.Sprintf("late-upload: %d upload(s) took effect after the holder had found its lock lost (stale-lock refresh failed): %v", len(st.lateUploads), st.lateUploads)}, st.bad...)
+			if traffic && st.lost {
+				r.Outcome(fmt.Sprintf("holder+uploads: lock lost; upload reached the storage after that with lock age >= %d min", st.lostArrivalMin))
+			}
+			if len(st.staleUploads) > 0 {
+				st.bad = append([]string{fmt.Sprintf("stale-upload: the holder issued %d upload(s) to the storage while every other process judges its lock stale: %v", len(st.staleUploads), st.staleUploads)}, st.bad...)
 			}
 			if len(st.bad) > 0 {
 				kind := strings.SplitN(st.bad[0], ":", 2)[0]
 				key := "C13|" + kind + "|" + name
-				if kind == "stale" && time.Duration(stalls)*quantum > 15*time.Minute/2 {
+				if (kind == "stale" || kind == "stale-upload") && time.Duration(stalls)*quantum > 15*time.Minute/2 {
 					// operations were stalled for longer than the 7.5-minute margin between the
 					// refreshability timeout and the staleness limit: a separate, recorded finding
 					key = "C13|stale|operations-stalled-beyond-7.5min-margin"
@@ -338,6 +349,11 @@ func verifC13Monitor(x *xplore.Exec, quantum time.Duration) {
 		if youngest < 0 || age < youngest {
 			youngest = age
 		}
+	}
+	if youngest >= 0 {
+		st.newestLock = now.Add(-youngest)
+	} else {
+		st.newestLock = time.Time{}
 	}
 	if youngest >= 0 && youngest > st.maxAge {
 		st.maxAge = youngest
